@@ -3,11 +3,14 @@
    non-trivial instance (3 files, interleaved, an empty piece, add_file, a source longer than
    the announced size, footer iterated in reverse order, read back through a throttled stream
    with short reads) on which every hypothesis is checked and the read-back is evaluated. *)
+From MLA Require Import Limit.
 From MLA Require Import Base Stream Blocks Writer Reader RoundTripBlocks RoundTripFooter
   RoundTripReader RoundTripWriter RoundTripRun RoundTripGlue RoundTrip Inst.
 From MLA.Concrete Require Import Sha256.
 From MLAGen Require Src.
 From Coq Require Import ZifyBool ZifyNat ZifyN Permutation.
+(* a concrete instance: the production value of BINCODE_MAX_DESERIALIZE, file-local *)
+#[local] Instance EX_LIMIT : Limit := MLAGen.Src.BINCODE_MAX_DESERIALIZE_prod.
 Open Scope N_scope.
 
 Notation TS := Src.BT_FileStart.
